@@ -356,12 +356,17 @@ fn event_log_files(dir: &Path) -> Vec<PathBuf> {
                 let p = e.path();
                 if p.is_dir() {
                     stack.push(p);
-                } else if p.extension().map(|x| x == "events").unwrap_or(false) {
+                } else if p.extension().map(|x| x == "events" || x == "db" || x == "sqlite" || x == "sqlite3").unwrap_or(false) {
+                    // event log files (file system backend) or the database file (sqlite backend)
                     out.push(p);
                 }
             }
         }
     }
+    // sqlite runs in WAL mode: transactions are appended to `<db>-wal` (created when the
+    // database is opened), so that is where the writes of an operation go
+    let wals: Vec<PathBuf> = out.iter().filter(|p| p.extension().map(|x| x == "db").unwrap_or(false)).map(|p| PathBuf::from(format!("{}-wal", p.display()))).collect();
+    out.extend(wals);
     out.sort();
     out
 }
@@ -370,15 +375,15 @@ fn event_log_files(dir: &Path) -> Vec<PathBuf> {
 /// `kill_at = Some(k)` the process is killed (SIGKILL, on entering the syscall) at the
 /// k-th such write: a process death between two writes, with no hook in the code.
 /// Returns (exit code, signal, number of traced writes).
-fn run_child_strace(spec: &Value, files: &[PathBuf], kill_at: Option<usize>) -> (Option<i32>, Option<i32>, usize) {
+fn run_child_strace(spec: &Value, files: &[PathBuf], kill_at: Option<usize>) -> (Option<i32>, Option<i32>, usize, Vec<usize>) {
     let exe = std::env::current_exe().expect("current exe");
     let spec_path = PathBuf::from(format!("{}.spec.json", spec["dir"].as_str().unwrap_or("spec")));
     let trace_path = PathBuf::from(format!("{}.strace", spec["dir"].as_str().unwrap_or("spec")));
     if std::fs::write(&spec_path, spec.to_string()).is_err() {
-        return (None, None, 0);
+        return (None, None, 0, vec![]);
     }
     let mut cmd = Command::new("strace");
-    cmd.arg("-f").arg("-qq").arg("-o").arg(&trace_path).arg("-e").arg("trace=write,pwrite64,writev");
+    cmd.arg("-f").arg("-qq").arg("-x").arg("-s").arg("8").arg("-o").arg(&trace_path).arg("-e").arg("trace=write,pwrite64,writev");
     if let Some(k) = kill_at {
         cmd.arg("-e").arg(format!("inject=write,pwrite64,writev:signal=KILL:when={k}"));
     }
@@ -388,16 +393,37 @@ fn run_child_strace(spec: &Value, files: &[PathBuf], kill_at: Option<usize>) -> 
     cmd.arg(exe).arg("c13child").arg("--spec-file").arg(&spec_path).env("RUST_BACKTRACE", "0");
     let out = cmd.output();
     let _ = std::fs::remove_file(&spec_path);
-    let writes = std::fs::read_to_string(&trace_path).map(|t| t.lines().filter(|l| l.contains("write(") || l.contains("pwrite64(") || l.contains("writev(")).count()).unwrap_or(0);
+    // number of traced writes, and the sqlite transaction boundaries among them: a WAL frame is
+    // a 24-byte header write followed by the page write; bytes 4..8 of the header are non-zero
+    // for the frame that commits a transaction, so the write after that frame's page is the
+    // first write of the NEXT transaction
+    let mut writes = 0usize;
+    let mut boundaries = vec![];
+    if let Ok(t) = std::fs::read_to_string(&trace_path) {
+        for l in t.lines() {
+            if !(l.contains("write(") || l.contains("pwrite64(") || l.contains("writev(")) {
+                continue;
+            }
+            writes += 1;
+            if l.contains("pwrite64(") && l.contains(", 24, ") {
+                if let Some(q) = l.find('"') {
+                    let hex: Vec<u8> = l[q + 1..].split("\\x").skip(1).take(8).filter_map(|b| u8::from_str_radix(&b[..2.min(b.len())], 16).ok()).collect();
+                    if hex.len() == 8 && hex[4..8].iter().any(|b| *b != 0) {
+                        boundaries.push(writes + 2);
+                    }
+                }
+            }
+        }
+    }
     let _ = std::fs::remove_file(&trace_path);
     match out {
         Ok(o) => {
             use std::os::unix::process::ExitStatusExt;
             // strace exits with 128+signal (or re-raises) when the tracee was killed
             let sig = o.status.signal().or_else(|| o.status.code().filter(|c| *c > 128).map(|c| c - 128));
-            (o.status.code(), sig, writes)
+            (o.status.code(), sig, writes, boundaries)
         }
-        Err(_) => (None, None, 0),
+        Err(_) => (None, None, 0, vec![]),
     }
 }
 
@@ -666,28 +692,38 @@ pub async fn run(args: &Args, rep: &mut Reporter) {
                 // ---- process death before each write to an event log (syscall level, no hook) --------
                 // judged on clauses (1) opens, (2) every log equals before or after, (4) tree == records;
                 // clause (3) at these points is what the probe-based points above already judge
-                if config.backend == Backend::Fs && sys_ops.contains(op) {
+                if sys_ops.contains(op) {
                     let _ = std::fs::remove_dir_all(&work);
                     if setup::copy_dir(&s0_dir, &work).is_ok() {
                         let files = event_log_files(&work);
                         let mut tspec = spec.clone();
                         tspec["dir"] = json!(work.display().to_string());
-                        let (code, _sig, writes) = run_child_strace(&tspec, &files, None);
+                        let (code, _sig, writes, boundaries) = run_child_strace(&tspec, &files, None);
                         if code == Some(0) && writes > 0 {
                             rep.max(&format!("max:log_writes:{op}"), writes as u64);
                             let mut ks: Vec<usize> = (1..=writes).collect();
                             if ks.len() > per_op_points {
                                 rng.shuffle(&mut ks);
                                 ks.truncate(per_op_points);
-                                ks.sort();
                             }
+                            // sqlite: between the transactions of the operation (all of them, bounded)
+                            let mut bs: Vec<usize> = boundaries.into_iter().filter(|k| *k <= writes).collect();
+                            rep.max(&format!("max:db_transactions:{op}"), bs.len() as u64 + 1);
+                            if bs.len() > 3 * per_op_points {
+                                rng.shuffle(&mut bs);
+                                bs.truncate(3 * per_op_points);
+                            }
+                            rep.count("syscall_points_between_db_transactions", bs.len() as u64);
+                            ks.extend(bs);
+                            ks.sort();
+                            ks.dedup();
                             for k in ks {
                                 let _ = std::fs::remove_dir_all(&work);
                                 if setup::copy_dir(&s0_dir, &work).is_err() {
                                     continue;
                                 }
                                 let files = event_log_files(&work);
-                                let (_code, sig, _) = run_child_strace(&tspec, &files, Some(k));
+                                let (_code, sig, _, _) = run_child_strace(&tspec, &files, Some(k));
                                 if sig != Some(9) {
                                     rep.count("syscall_kill_not_delivered", 1);
                                     continue;
@@ -706,7 +742,7 @@ pub async fn run(args: &Args, rep: &mut Reporter) {
                                 let judged: BTreeSet<&str> = ex.problems.iter().map(|(c, _)| *c).filter(|c| matches!(*c, "cannot_open" | "log_emptied" | "log_missing" | "log_neither_before_nor_after" | "logs_unreadable" | "tree_differs_from_records" | "log_stream_error")).collect();
                                 for cls in &judged {
                                     let detail = ex.problems.iter().find(|(c, _)| c == cls).map(|(_, d)| d.clone()).unwrap_or_default();
-                                    rep.violation(&format!("C13:fs:killed_before_log_write:{op}:{cls}"), &format!("process killed on entering write #{k} of {writes} to the event logs during {op}: {detail}"), ctx.clone());
+                                    rep.violation(&format!("C13:{backend}:killed_before_log_write:{op}:{cls}"), &format!("process killed on entering write #{k} of {writes} to the {} during {op}: {detail}", if backend == "fs" { "event logs" } else { "database file" }), ctx.clone());
                                 }
                                 if judged.is_empty() {
                                     rep.count("syscall_crash_points_consistent", 1);
